@@ -93,3 +93,257 @@ REG.contract(
     note="h5py AttributeManager.get; None when the group does not exist or the attribute is absent")
 
 REG.fields("Dimension", _h5group=Obj("H5Group"), dim_index=Int, _parent=Dyn, _file=Obj("File"))
+
+
+# ---------------------------------------------------------------------------------------------------------
+# canonical handles: an H5Group python object carries no state besides (pgid, name) in this model, so all
+# handles for the same (parent object, link name) are identified with one canonical ghost object HID(p, n)
+# ---------------------------------------------------------------------------------------------------------
+HID = z3.Function("handle_id", IntS, StrS, IntS)
+
+
+@REG.specfunc()
+def child(ex, p, g, n):
+    """the H5Group / H5DataSet handle for link name n below the HDF5 object g"""
+    h = HID(g.t, n.t)
+    pg = ex.bi.heap_array(p, "pgid", Int)
+    nm = ex.bi.heap_array(p, "name", Str)
+    if ex.is_ground(g.t, n.t):
+        p.assume(z3.And(h > 0, pg[h] == g.t, nm[h] == n.t))
+    return VObj(h, "H5Group")
+
+
+def _norm_attr(v):
+    """what set_attr stores for a value: None deletes (absent = VNone)"""
+    return v
+
+
+@REG.specfunc()
+def attr_set(ex, p, amap, o, k, v):
+    """attribute map after `attrs[k] = v` (v None: the attribute is deleted) on object o"""
+    a = amap.t
+    return VOpaqueTerm(z3.Store(a, o.t, z3.Store(a[o.t], k.t, box(ex.deref(p, v)))))
+
+
+from sidecar_a_common import VOpaqueTerm      # noqa: E402
+
+H5G_OK = "gid(self) != 0"
+
+REG.contract(
+    "nixio.hdf5.h5group.H5Group.set_attr", assumed=True,
+    params=dict(self=Obj("H5Group"), name=Str, value=Dyn),
+    requires=[H5G_OK],
+    modifies=["attr"],
+    raises={"TypeError#h5": ("not storable(value)", "helper")},
+    ensures=["same(sigma('attr'), attr_set(old(sigma('attr')), gid(self), name, value))"],
+    note="h5py attrs[name] = value / del attrs[name] for None; the group exists (callers establish gid != 0); "
+         "raises for values h5py cannot store")
+
+_STORABLE = z3.Function("h5_storable", Val, BoolS)
+
+
+@REG.specfunc()
+def storable(ex, p, v):
+    """h5py can store the value as an attribute (assumed true for None, numbers, text, bytes and flat sequences of them)"""
+    t = box(ex.deref(p, v))
+    basic = z3.Or(Val.is_VNone(t), Val.is_VInt(t), Val.is_VReal(t), Val.is_VBool(t), Val.is_VStr(t), Val.is_VBytes(t),
+                  Val.is_VIntSeq(t), Val.is_VRealSeq(t), Val.is_VStrSeq(t))
+    return VBool(z3.Or(basic, _STORABLE(t)))
+
+
+# ---- clock and timestamp text --------------------------------------------------------------------------------
+REG.contract(
+    "nixio.util.util.now_int", assumed=True, params=dict(), result=Int,
+    modifies=["clock"],
+    ensures=["result == old(clock())", "clock() >= old(clock())"],
+    note="reads the system clock (monotone for the purposes of C19: 'while the clock does not move backwards')")
+
+
+@REG.specfunc()
+def clock(ex, p):
+    return VInt(p.sigma["clock"])
+
+
+# ---------------------------------------------------------------------------------------------------------
+# links and datasets
+# ---------------------------------------------------------------------------------------------------------
+@REG.specfunc()
+def link_set(ex, p, lmap, g, k, o):
+    """link map after `group[k] = object o` (o == 0: the link is removed)"""
+    a = lmap.t
+    return VOpaqueTerm(z3.Store(a, g.t, z3.Store(a[g.t], k.t, o.t)))
+
+
+@REG.specfunc()
+def ord_without(ex, p, names, k):
+    """creation-order sequence with the name k removed (total spec function; defining facts per instance)"""
+    f = z3.Function("spec_ord_without", z3.SeqSort(StrS), StrS, z3.SeqSort(StrS))
+    r = f(names.t, k.t)
+    if ex.is_ground(names.t, k.t):
+        i = z3.IndexOf(names.t, z3.Unit(k.t), 0)
+        n = z3.Length(names.t)
+        p.assume(z3.If(z3.Contains(names.t, z3.Unit(k.t)),
+                       r == z3.Concat(z3.SubSeq(names.t, 0, i), z3.SubSeq(names.t, i + 1, n - i - 1)),
+                       r == names.t))
+    return VSeq(r, Str)
+
+
+@REG.specfunc()
+def ord_set(ex, p, omap, g, names):
+    return VOpaqueTerm(z3.Store(omap.t, g.t, names.t))
+
+
+@REG.specfunc()
+def wf(ex, p):
+    """well-formed store (assumed invariant of HDF5 groups): link names of a group = its creation-order list
+    (no repeats); linked objects are older than the allocation counter"""
+    link, ordr, fresh = p.sigma["link"], p.sigma["ord"], p.sigma["fresh"]
+    g, n = V.fresh("wg", IntS), V.fresh("wn", StrS)
+    return VBool(z3.And(fresh > 0,
+                        z3.ForAll([g, n], z3.And((link[g][n] != 0) == z3.Contains(ordr[g], z3.Unit(n)),
+                                                 link[g][n] < fresh, link[g][n] >= 0))))
+
+
+REG.contract(
+    "nixio.hdf5.h5group.H5Group.__contains__", assumed=True,
+    params=dict(self=Obj("H5Group"), item=Dyn), result=Bool,
+    ensures=["result == (gid(self) != 0 and is_str(item) and link(gid(self), as_str(item)) != 0)"],
+    note="h5py Group.__contains__ on link names; False when the group does not exist")
+
+REG.contract(
+    "nixio.hdf5.h5group.H5Group.__len__", assumed=True,
+    params=dict(self=Obj("H5Group")), result=Int,
+    ensures=["result == ite_(gid(self) == 0, 0, len(order(gid(self))))", "result >= 0"])
+
+REG.contract(
+    "nixio.hdf5.h5group.H5Group.__delitem__", assumed=True,
+    params=dict(self=Obj("H5Group"), key=Str),
+    requires=[H5G_OK], modifies=["link", "ord"], let="g = gid(self)",
+    raises={"KeyError": ("link(g, key) == 0", "helper")},
+    ensures=["same(sigma('link'), link_set(old(sigma('link')), g, key, 0))",
+             "same(sigma('ord'), ord_set(old(sigma('ord')), g, ord_without(old(order(g)), key)))"],
+    note="del group[key]: unlinks; the object itself is untouched")
+
+REG.contract(
+    "nixio.hdf5.h5group.H5Group.create_link", assumed=True,
+    params=dict(self=Obj("H5Group"), target=Dyn, name=Str),
+    requires=[H5G_OK, "is_obj(target)", "target_obj(target) != 0"],
+    modifies=["link", "ord"], let="g = gid(self); tobj = target_obj(target)",
+    ensures=["same(sigma('link'), link_set(old(sigma('link')), g, name, tobj))",
+             "same(sigma('ord'), ord_set(old(sigma('ord')), g, ord_without(old(order(g)), name) + (name,)))"],
+    note="group[name] = target's HDF5 object (a hard link: the SAME object, not a copy); an existing link of that "
+         "name is removed first, so the name moves to the end of the creation order")
+
+
+@REG.specfunc()
+def target_obj(ex, p, t):
+    """HDF5 object of an entity passed as a dynamic value"""
+    from sidecar_a_common import gid
+    tt = box(ex.deref(p, t))
+    h5 = ex.bi.heap_array(p, "_h5group", Obj("H5Group"))
+    return gid(ex, p, VObj(h5[Val.ref(tt)], "H5Group"))
+
+
+REG.contract(
+    "nixio.hdf5.h5group.H5Group.open_group", assumed=True,
+    params=dict(self=Obj("H5Group"), name=Str, create=Bool), result=Obj("H5Group"),
+    requires=[H5G_OK],
+    modifies=["link", "ord", "kind", "fresh", "attr"],
+    let="g = gid(self); isnew = create and link(g, name) == 0",
+    ensures=["result == child(g, name)",
+             "(not isnew) implies (unchanged('link') and unchanged('ord') and unchanged('kind') and unchanged('fresh') "
+             "and unchanged('attr'))",
+             "isnew implies (same(sigma('link'), link_set(old(sigma('link')), g, name, old(freshid()))) and "
+             "same(sigma('ord'), ord_set(ord_set(old(sigma('ord')), g, old(order(g)) + (name,)), old(freshid()), ())) and "
+             "freshid() == old(freshid()) + 1 and okind(old(freshid())) == 1 and "
+             "same(sigma('attr'), attr_clear(old(sigma('attr')), old(freshid()))) and "
+             "all_kinds_kept(old(freshid())))"],
+    note="H5Group(parent, name, create): creates an empty, creation-order-tracked group iff create and absent")
+
+
+@REG.specfunc()
+def freshid(ex, p):
+    return VInt(p.sigma["fresh"])
+
+
+@REG.specfunc()
+def attr_clear(ex, p, amap, o):
+    return VOpaqueTerm(z3.Store(amap.t, o.t, z3.K(StrS, Val.VNone)))
+
+
+@REG.specfunc()
+def all_kinds_kept(ex, p, o):
+    se = ex.lookup(p, "__specenv__")
+    oldp = se.old if se.old is not None else se.p
+    return VBool(p.sigma["kind"] == z3.Store(oldp.sigma["kind"], o.t, z3.IntVal(1)))
+
+
+REG.contract(
+    "nixio.hdf5.h5group.H5Group.has_data", assumed=True,
+    params=dict(self=Obj("H5Group"), name=Str), result=Bool, requires=[H5G_OK],
+    ensures=["result == (link(gid(self), name) != 0 and okind(link(gid(self), name)) == 2)"])
+
+REG.contract(
+    "nixio.hdf5.h5group.H5Group.get_data", assumed=True,
+    params=dict(self=Obj("H5Group"), name=Str), result=Dyn, requires=[H5G_OK],
+    ensures=["result == ite_(link(gid(self), name) == 0, boxed(()), ddata(link(gid(self), name)))"],
+    note="dataset[:] of the named child, [] when absent (the empty list is modelled as the empty sequence)")
+
+
+@REG.specfunc()
+def stored_as(ex, p, data, dtype):
+    """content of a dataset after writing `data` with element type dtype (assumed h5py conversion: real
+    sequences are stored as they are for Double; text sequences as they are for String)"""
+    f = z3.Function("h5_convert", Val, Val, Val)
+    d = box(ex.deref(p, data))
+    t = box(ex.deref(p, dtype))
+    r = f(d, t)
+    if ex.is_ground(d, t):
+        p.assume(z3.Implies(z3.Or(Val.is_VRealSeq(d), Val.is_VStrSeq(d)), r == d))
+    return VDyn(r)
+
+
+REG.contract(
+    "nixio.hdf5.h5group.H5Group.write_data", assumed=True,
+    params=dict(self=Obj("H5Group"), name=Str, data=Dyn, dtype=Dyn, compression=Bool),
+    requires=[H5G_OK],
+    modifies=["link", "ord", "kind", "fresh", "data", "dshape", "dtype"], raise_dirty=True,
+    let="g = gid(self); had = link(g, name) != 0 and okind(link(g, name)) == 2; "
+        "d = ite_(had, link(g, name), freshid())",
+    raises={"IndexError": ("(not had) and is_none(dtype) and seq_empty(data)", "helper"),
+            "TypeError#conv": ("not h5_convertible(data, ite_(had, ddtype(link(g, name)), dtype))", "helper")},
+    ensures=["same(sigma('data'), store_data(old(sigma('data')), d, stored_as(data, ite_(had, old(ddtype(d)), dtype))))",
+             "had implies (unchanged('link') and unchanged('ord') and unchanged('kind') and unchanged('fresh') "
+             "and unchanged('dtype'))",
+             "(not had) implies (same(sigma('link'), link_set(old(sigma('link')), g, name, d)) and "
+             "same(sigma('ord'), ord_set(old(sigma('ord')), g, old(order(g)) + (name,))) and "
+             "freshid() == old(freshid()) + 1 and okind(d) == 2 and ddtype(d) == ite_(is_none(dtype), "
+             "uf('dtype_of_first', data), dtype))"],
+    note="creates (shape = np.shape(data), given dtype or the dtype of data[0]) or resizes the named dataset and "
+         "writes data; a conversion failure happens AFTER the resize (raise_dirty)")
+
+
+@REG.specfunc()
+def seq_empty(ex, p, v):
+    t = box(ex.deref(p, v))
+    return VBool(z3.Or(z3.And(Val.is_VRealSeq(t), z3.Length(Val.rseq(t)) == 0),
+                       z3.And(Val.is_VIntSeq(t), z3.Length(Val.iseq(t)) == 0),
+                       z3.And(Val.is_VStrSeq(t), z3.Length(Val.sseq(t)) == 0),
+                       z3.And(Val.is_VValSeq(t), z3.Length(Val.vseq(t)) == 0)))
+
+
+_CONVOK = z3.Function("h5_convertible", Val, Val, BoolS)
+
+
+@REG.specfunc()
+def h5_convertible(ex, p, data, dtype):
+    """h5py can convert data to the dataset's element type (assumed: numbers -> Double, text -> String always)"""
+    d, t = box(ex.deref(p, data)), box(ex.deref(p, dtype))
+    if ex.is_ground(d, t):
+        from pyvc.builtins import lib_const
+        dbl = box(lib_const("np.double"))
+        numeric = z3.Or(Val.is_VRealSeq(d), Val.is_VIntSeq(d), Val.is_VReal(d), Val.is_VInt(d))
+        numvals = z3.And(Val.is_VValSeq(d), z3.Length(Val.vseq(d)) == 1,
+                         z3.Or(Val.is_VInt(Val.vseq(d)[0]), Val.is_VReal(Val.vseq(d)[0])))
+        p.assume(z3.Implies(z3.And(t == dbl, z3.Or(numeric, numvals)), _CONVOK(d, t)))
+    return VBool(_CONVOK(d, t))
